@@ -75,32 +75,82 @@ func init() {
 		"(*sync.Mutex).Unlock":    modelLock(2, false),
 	}
 	for name, size := range map[string]int64{"crypto/sha1.New": 20, "crypto/sha256.New": 32, "crypto/sha512.New384": 48, "crypto/sha512.New": 64, "crypto/md5.New": 16, "golang.org/x/crypto/md4.New": 16} {
-		size := size
+		size, name := size, name
 		goModels[name] = func(e *Exec, c *ssa.CallCommon, a []Val, in ssa.Instruction) (Val, bool) {
-			return e.newHash(BVLitI(size, 64)), true
+			return e.newHash(BVLitI(size, 64), IntLit(fnIDByName(name)), nil), true
 		}
 	}
 	goModels["crypto/hmac.New"] = func(e *Exec, c *ssa.CallCommon, a []Val, in ssa.Instruction) (Val, bool) {
 		h := e.toTerm(a[0], c.Args[0].Type())
-		return e.newHash(App("hashsize", BV(64), h)), true
+		k := a[1].(*Term)
+		return e.newHash(App("hashsize", BV(64), h), h, e.bseqOf(k)), true
 	}
 	goModels["(hash.Hash).Sum"] = func(e *Exec, c *ssa.CallCommon, a []Val, in ssa.Instruction) (Val, bool) {
-		e.trust("hash.Hash: Sum(b) returns a fresh slice of length len(b)+Size(); Write returns (len(p), nil); Size() is the digest size fixed at construction")
+		e.trust("hash.Hash objects: Write appends to the hashed data, Sum(b) returns a fresh slice b || digest where digest = hmac(fn, key, data) for hmac.New objects and hashf(fn, data) for plain hashes (uninterpreted), Size() is fixed at construction")
 		h, b := a[0].(*Term), a[1].(*Term)
 		r := e.allocRef("sum")
 		n, hs := elemHeap(types.Typ[types.Byte])
-		e.heapSet(n, Store(e.heapGet(n, hs), r, e.vc.Fresh("digest", ArraySort(BV(64), BV(8)))))
+		arr := e.vc.Fresh("digest", ArraySort(BV(64), BV(8)))
+		e.heapSet(n, Store(e.heapGet(n, hs), r, arr))
 		ln := e.vc.Define("sumlen", BVAdd(SlLen(b), App("hsize", BV(64), IfRef(h))))
-		return MkSlice(r, bv64zero, ln, ln), true
+		res := MkSlice(r, bv64zero, ln, ln)
+		ref := IfRef(h)
+		fn := e.ghGet("GH.hfn", "(Array Int Int)", ref)
+		key := e.ghGet("GH.hkey", "(Array Int BSeq)", ref)
+		keyed := e.ghGet("GH.hkeyed", "(Array Int Bool)", ref)
+		data := e.ghGet("GH.hdata", "(Array Int BSeq)", ref)
+		digest := Ite(keyed, App("hmac", "BSeq", fn, key, data), App("hashf", "BSeq", fn, data))
+		out := App("bseq.of", "BSeq", arr, bv64zero, ln)
+		if same(b, NilSlice) || (b.Op == "mk-slice" && b.Args[2].IsLit() && b.Args[2].Lit.Sign() == 0) {
+			e.vc.Assume(e.g, Eq(out, digest))
+		} else {
+			e.vc.Assume(e.g, Eq(out, App("seqcat", "BSeq", e.bseqOf(b), digest)))
+		}
+		return res, true
 	}
 	goModels["(hash.Hash).Write"] = func(e *Exec, c *ssa.CallCommon, a []Val, in ssa.Instruction) (Val, bool) {
-		e.trust("hash.Hash: Sum(b) returns a fresh slice of length len(b)+Size(); Write returns (len(p), nil); Size() is the digest size fixed at construction")
-		return Tuple{SlLen(a[1].(*Term)), NilIface}, true
+		e.trust("hash.Hash objects: Write appends to the hashed data, Sum(b) returns a fresh slice b || digest where digest = hmac(fn, key, data) for hmac.New objects and hashf(fn, data) for plain hashes (uninterpreted), Size() is fixed at construction")
+		h, p := a[0].(*Term), a[1].(*Term)
+		e.hashAppend(IfRef(h), e.bseqOf(p))
+		return Tuple{SlLen(p), NilIface}, true
 	}
 	goModels["(hash.Hash).Size"] = func(e *Exec, c *ssa.CallCommon, a []Val, in ssa.Instruction) (Val, bool) {
 		return App("hsize", BV(64), IfRef(a[0].(*Term))), true
 	}
-	goModels["(hash.Hash).Reset"] = func(e *Exec, c *ssa.CallCommon, a []Val, in ssa.Instruction) (Val, bool) { return nil, true }
+	goModels["(hash.Hash).Reset"] = func(e *Exec, c *ssa.CallCommon, a []Val, in ssa.Instruction) (Val, bool) {
+		ref := IfRef(a[0].(*Term))
+		e.heapSet("GH.hdata", Store(e.heapGet("GH.hdata", "(Array Int BSeq)"), ref, Sym("seqempty", "BSeq")))
+		e.root.hashEmpty[ref.String()] = true
+		return nil, true
+	}
+	goModels["io.Copy"] = func(e *Exec, c *ssa.CallCommon, a []Val, in ssa.Instruction) (Val, bool) {
+		// hash <- bytes.Reader
+		mi, ok := c.Args[1].(*ssa.MakeInterface)
+		if !ok || shortName(types.TypeString(mi.X.Type(), nil)) != "*bytes.Reader" {
+			return nil, false
+		}
+		isHash := shortName(types.TypeString(c.Args[0].Type(), nil)) == "hash.Hash"
+		if ci, ok := c.Args[0].(*ssa.ChangeInterface); ok && shortName(types.TypeString(ci.X.Type(), nil)) == "hash.Hash" {
+			isHash = true
+		}
+		if !isHash {
+			return nil, false
+		}
+		e.trust("io.Copy(hash, *bytes.Reader) appends the reader's remaining bytes to the hashed data and returns (n, nil)")
+		dst, src := a[0].(*Term), a[1].(*Term)
+		rr := IfRef(src)
+		ln, pos := e.rdGet(rr)
+		seq := e.ghGet("GH.rdseq", "(Array Int BSeq)", rr)
+		var chunk *Term
+		if pos.IsLit() && pos.Lit.Sign() == 0 {
+			chunk = seq
+		} else {
+			chunk = App("seqsub", "BSeq", seq, pos, ln)
+		}
+		e.hashAppend(IfRef(dst), chunk)
+		e.rdSet(rr, nil, ln)
+		return Tuple{BVSub(ln, pos), NilIface}, true
+	}
 	for _, bo := range []struct {
 		name string
 		big  bool
@@ -315,12 +365,42 @@ func (e *Exec) lockCheck(p *Ptr, write bool) {
 	}
 }
 
-// newHash: a fresh hash object (interface value) whose digest size is sz.
-func (e *Exec) newHash(sz *Term) *Term {
+// newHash: a fresh hash object (interface value) with digest size sz, constructor fn and (for HMAC) key.
+func (e *Exec) newHash(sz, fn, key *Term) *Term {
 	e.trust("hash constructors (sha1/sha256/sha512/md5/md4.New, hmac.New) return a non-nil hash.Hash with the documented digest size")
 	r := e.allocRef("hash")
 	e.vc.Assume(True, Eq(App("hsize", BV(64), r), sz))
+	e.heapSet("GH.hfn", Store(e.heapGet("GH.hfn", "(Array Int Int)"), r, fn))
+	if key != nil {
+		e.heapSet("GH.hkey", Store(e.heapGet("GH.hkey", "(Array Int BSeq)"), r, key))
+	}
+	e.heapSet("GH.hkeyed", Store(e.heapGet("GH.hkeyed", "(Array Int Bool)"), r, Bool(key != nil)))
+	e.heapSet("GH.hdata", Store(e.heapGet("GH.hdata", "(Array Int BSeq)"), r, Sym("seqempty", "BSeq")))
+	if e.root.hashEmpty == nil {
+		e.root.hashEmpty = map[string]bool{}
+	}
+	e.root.hashEmpty[r.String()] = true
 	return MkIface(IntLit(typeID(types.Typ[types.UnsafePointer])+7), r)
+}
+
+func (e *Exec) hashAppend(ref *Term, chunk *Term) {
+	if e.root.hashEmpty == nil {
+		e.root.hashEmpty = map[string]bool{}
+	}
+	old := e.ghGet("GH.hdata", "(Array Int BSeq)", ref)
+	var nd *Term
+	if e.root.hashEmpty[ref.String()] {
+		nd = chunk
+	} else {
+		nd = App("seqcat", "BSeq", old, chunk)
+	}
+	e.root.hashEmpty[ref.String()] = false
+	e.heapSet("GH.hdata", Store(e.heapGet("GH.hdata", "(Array Int BSeq)"), ref, nd))
+}
+
+// bseqOf: the contents of a byte slice as a sequence value.
+func (e *Exec) bseqOf(s *Term) *Term {
+	return App("bseq.of", "BSeq", e.vc.Define("sarr", e.backingCanon(s, types.Typ[types.Byte])), SlOff(s), SlLen(s))
 }
 
 // ---------- bytes.Buffer and encoding/binary.Read/Write over it (exact on the real struct fields) ----------
@@ -582,7 +662,16 @@ func modelBinaryRead(e *Exec, c *ssa.CallCommon, a []Val, in ssa.Instruction) (V
 const ghSort = "(Array Int (_ BitVec 64))"
 
 func (e *Exec) rdGet(ref *Term) (ln, pos *Term) {
-	return Select(e.heapGet("GH.rdlen", ghSort), ref), Select(e.heapGet("GH.rdpos", ghSort), ref)
+	return e.ghGet("GH.rdlen", ghSort, ref), e.ghGet("GH.rdpos", ghSort, ref)
+}
+
+// ghGet reads a ghost heap with read-over-write resolution (keeps literals such as a zero cursor visible).
+func (e *Exec) ghGet(name, sort string, ref *Term) *Term {
+	h := e.heapGet(name, sort)
+	if e.vc.frozen > 0 {
+		return Select(h, ref)
+	}
+	return e.canonArr(h, ref)
 }
 
 func (e *Exec) rdSet(ref, ln, pos *Term) {
@@ -597,6 +686,7 @@ func init() {
 		e.trust("bytes.Reader / mstypes.Reader: a read of n bytes succeeds iff n bytes remain (ghost cursor); mstypes.Reader.ReadBytes(n) allocates n bytes")
 		r := e.allocRef("rd")
 		e.rdSet(r, SlLen(a[0].(*Term)), bv64zero)
+		e.heapSet("GH.rdseq", Store(e.heapGet("GH.rdseq", "(Array Int BSeq)"), r, e.bseqOf(a[0].(*Term))))
 		t := e.P.lookupType("bytes.Reader")
 		return &Ptr{Kind: PHeap, Ref: r, Base: t, Typ: t, NonNil: true}, true
 	}
